@@ -206,3 +206,17 @@ contract(P + 'decode', 'C11', DEC_PARAMS, name='C11/sentinel.reads-too-narrow', 
          reads={'data': ('offset', 'own_end(data, offset, size) - 1')}, raises={DE: []})
 contract(P + 'decode', 'C11', DEC_PARAMS, name='C11/sentinel.raises-nothing', expect_fail=True,
          requires=['len(data) >= offset + 2', 'hdr_ptype(data[offset:offset+2]) == 7'], raises={})
+
+# C10 bounds the information field by len(pdu) (what collect()/dequeue() compute with) and calls aggregation
+# transparent; both rest on what is proved here: len(pdu) is the length of the encoding, and a PDU decoded at any
+# offset of a frame agrees with the independent reading.  Those contracts are therefore obligations of C10 too.
+import copy as _copy
+from pyvc.contracts import REGISTRY as _REG
+for _c in list(_REG):
+    _short = _c.name.split('/', 1)[1]
+    if _c.prop == 'C11' and not _c.expect_fail and not _c.bounded and \
+            (_short.endswith('.encode') or _short.startswith('decode[') or _short.startswith('AggregatedFrame.')):
+        _c2 = _copy.copy(_c)
+        _c2.prop = 'C10'
+        _c2.name = 'C10/pdu.' + _short
+        _REG.append(_c2)
